@@ -43,6 +43,14 @@ def run(binary, args, timeout=300, crit="bytes"):
                     "tried": len(cases), "stdout": out[-500:], "stderr": ""}
         raise
     out = p.stdout
+    if p.returncode < 0 or p.returncode == 134:
+        # the process was killed by a signal (SIGABRT: std's unsafe-precondition check, or a double panic):
+        # the last CASE marker names the input
+        cases = re.findall(r"^CASE (\S*)$", out, re.M)
+        if cases:
+            return {"rc": p.returncode, "found": True, "kind": "abort", "input": cases[-1],
+                    "detail": "the process aborted on this input: " + (p.stderr.strip().splitlines() or ["signal"])[0][:300],
+                    "tried": len(cases), "stdout": out[-500:], "stderr": p.stderr[-500:]}
     w = re.search(r"^WITNESS kind=(\S+) input=(.*)$", out, re.M)
     d = re.search(r"^DETAIL (.*)$", out, re.M)
     t = re.search(r"tried=(\d+)|^TRIED (\d+)", out, re.M)
